@@ -264,7 +264,8 @@ Proof.
   rewrite find_child_rename by exact Hf.
   destruct (find_child (e_uri e) (e_local e ++ s_Pr) ks) as [pr|]; cbn [option_map]; [|reflexivity].
   rewrite kids_of_rename. apply foldM_map_ext.
-  intros d k. rewrite sub_val_of_rename by exact Hf. reflexivity.
+  intros d k. destruct k as [ke kks|tl]; [|reflexivity].
+  rewrite sub_val_of_rename by exact Hf. reflexivity.
 Qed.
 
 Lemma get_pStyle_rename : forall f e ks, injective f ->
@@ -361,11 +362,28 @@ Proof.
   change (is_mergeable (ren_einfo f e)) with (is_mergeable e).
   change (e_uri (ren_einfo f e)) with (ren_o f (e_uri e)).
   change (e_local (ren_einfo f e)) with (e_local e).
-  rewrite attr_r_rename, get_html_formatting_rename by exact Hf.
+  change (e_attrs (ren_einfo f e)) with (ren_attrs f (e_attrs e)).
+  change (e_ruri (ren_einfo f e)) with (ren_o f (e_ruri e)).
+  rewrite get_html_formatting_rename by exact Hf.
   destruct (negb (is_mergeable e)); [reflexivity|].
-  destruct (attr_r e s_id) as [[[|c r]|]|x]; cbn [bind]; try reflexivity.
+  assert (Hrid : match ren_o f (e_ruri e) with
+                 | Some u => alookup (Some u, s_id) (ren_attrs f (e_attrs e))
+                 | None => None
+                 end
+               = match e_ruri e with
+                 | Some u => alookup (Some u, s_id) (e_attrs e)
+                 | None => None
+                 end).
+  { destruct (e_ruri e) as [u|]; cbn [ren_o option_map]; [|reflexivity].
+    exact (alookup_rename f Hf (Some u) s_id (e_attrs e)). }
+  rewrite Hrid.
+  destruct (match e_ruri e with
+            | Some u => alookup (Some u, s_id) (e_attrs e)
+            | None => None
+            end) as [[|c r]|]; cbn [bind].
   - destruct (get_html_formatting e ks (env_x2h v)); reflexivity.
-  - destruct (of_opt KeyError (dict_get (c :: r) (env_rels v))); reflexivity.
+  - destruct (dict_get (c :: r) (env_rels v)); [reflexivity|].
+    destruct (get_html_formatting e ks (env_x2h v)); reflexivity.
   - destruct (get_html_formatting e ks (env_x2h v)); reflexivity.
 Qed.
 
@@ -464,7 +482,7 @@ Qed.
 (* the two local loops of [walk], named *)
 Section Loops.
   Variables (v : env) (path : list nat).
-  Fixpoint below_loop (l : list anode) (i : nat) : res (list (list tok)) :=
+  Fixpoint below_loop (l : list anode) (i : nat) : res (list tok) :=
     match l with
     | [] => Ok []
     | k :: r =>
@@ -472,7 +490,7 @@ Section Loops.
         sk' <- finish v sk ;;
         ps <- tree_par_toks (c_tree sk') ;;
         rest <- below_loop r (S i) ;;
-        Ok (ps ++ rest)
+        Ok (join_toks par_sep ps ++ rest)
     end.
   Fixpoint kids_loop (l : list anode) (i : nat) (s : cst) : res cst :=
     match l with
@@ -486,7 +504,7 @@ Lemma walk_AE v path e ks s :
   (let d := elem_depth (AE e ks) in
    s1 <- set_caret d (Some (e_local e)) s ;;
    body <- (if str_eqb (e_ptag e) tag_HYPERLINK then below_loop v path ks O else Ok []) ;;
-   '(s2, recurse) <- open_tag v path (AE e ks) e ks (join_toks par_sep body) s1 ;;
+   '(s2, recurse) <- open_tag v path (AE e ks) e ks body s1 ;;
    s3 <- (if recurse : bool then kids_loop v path ks O s2 else Ok s2) ;;
    s4 <- close_tag v e ks s3 ;;
    set_caret d None s4).
@@ -530,7 +548,7 @@ Proof.
     destruct (if str_eqb (e_ptag e) tag_HYPERLINK then below_loop v path ks 0%nat else Ok [])
       as [body|x]; cbn [bind]; [|reflexivity].
     rewrite open_tag_rename by exact Hf.
-    destruct (open_tag v path (AE e ks) e ks (join_toks par_sep body) s1) as [[s2 rec]|x];
+    destruct (open_tag v path (AE e ks) e ks body s1) as [[s2 rec]|x];
       cbn [bind]; [|reflexivity].
     rewrite (kids_loop_rename f v path ks HF).
     destruct (if rec then kids_loop v path ks 0%nat s2 else Ok s2) as [s3|x]; cbn [bind];
